@@ -143,12 +143,15 @@ def sc_reversible_step(V, n=1, apply_constraints=True):
     return sc_reversible(V, n=n, nsteps=1, apply_constraints=apply_constraints)
 
 
-def sc_refresh(V, n=2, forced=False):
+def sc_refresh(V, n=2, forced=False, pbc=False):
     from ase.units import kB
 
     from quansino.utils.dynamics import maxwell_boltzmann_distribution
 
     atoms, x0, m = _atoms(V, n, momenta=True)
+    if pbc:
+        atoms.set_cell([7.0, 8.0, 9.0], scale_atoms=False)
+        atoms.pbc = True
     T = V.real("T", lo=0, lo_strict=True, hi=5000)
     if V.mode == "sym":
         rng = shims.SymRNG("mb")
@@ -270,6 +273,7 @@ def _plan(tier):
         if tier != "quick" and n == 1:
             plan.append(("reversible", dict(n=n, nsteps=2, apply_constraints=False), ("done",)))
     plan.append(("refresh", dict(n=1 if tier == "quick" else 2, forced=False), ("done",)))
+    plan.append(("refresh", dict(n=2, forced=False, pbc=True), ("done",)))
     plan.append(("refresh", dict(n=1, forced=True), ("done",)))
     plan.append(("refresh", dict(n=2, forced=True), ("done",)))  # two different (symbolic) masses
     for v in (0, 1, 2):
